@@ -90,6 +90,21 @@ CLAIMED = {
     note="PARTIAL: contents fidelity, tar::unpack_in's link protection and rename atomicity are third-party/kernel behaviour: observed (digests, canaries, kill points), not proved. Trusted: Lean kernel; Model/Archive; harness p_archive; scripted workspace.",
     technique="Lean 4 proof (structural induction on trees, decision logic on path components, crash-point state machine) + differential correspondence + end-to-end",
     design="§5 C19"),
+ "C09": dict(
+    text="Lean 4 theorems on the unit model (every wait loop of a running attempt, pausable timers over abstract time) for EVERY event sequence without shutdown requests — time passing in any pieces, SIGTSTP/SIGCONT, information requests, non-signal cancellation, the process exiting at any moment: if SIGTERM/SIGKILL is ever sent the test has run, not counting stopped time, at least terminate-after x period (no_terminate_before_deadline, by an invariant tying the stopwatch to the interval sleep; fast_tests_unsignalled; no_terminate_without_terminate_after); slow mark iff running time >= period (slow_iff_period_elapsed); SIGTERM, or SIGKILL when grace = 0 (terminate_signal); SIGKILL after exactly the grace period of un-paused time (kill_after_grace); a timed-out attempt is reported as such (timeout_reported). Tied to the code end-to-end: family `slow` (periods, terminate-after, grace, per-binary override, tests that finish early / shortly before the deadline / hang and exit on, ignore, or exit late after SIGTERM, with a descendant in the group); the model's predicted signal times, Slow events, time-out, slow mark and running time are compared with the receivers' own records, and independent monitors recompute the property.",
+    note="PARTIAL: real timer latency and kernel signal delivery are observed with tolerances, not proved; setup-script slow-timeouts share the transitions and are only sampled. Trusted: Lean kernel; Model/Unit; scripted binary; supervisor.",
+    technique="Lean 4 proof (invariant over all event sequences of the unit state machine) + end-to-end correspondence",
+    design="§5 C09"),
+ "C11": dict(
+    text="Lean 4 theorems: the signal tables regenerated from unix.rs are the model's and every kill addresses the process group (signal_tables_match_source); each shutdown event is forwarded as its own, distinct, non-KILL signal when grace != 0 (shutdown_forwarded_same_signal); a running unit is signalled and enters the configured grace period (running_unit_is_signalled, grace_is_configured); zero grace or a second signal means SIGKILL (zero_grace_or_second_signal_kills); a unit already terminating is killed at once (terminating_unit_is_killed); a unit in its retry delay leaves it and starts nothing (delayed_unit_leaves); a draining unit ignores the signal and ends within the leak timeout (draining_unit_ends); SIGKILL when the grace timer expires (kill_after_grace); the broadcast reaches exactly the registered units with an open channel (broadcast_reaches_all_registered); first signal broadcast as itself, second as the kill request (shutdown_requests). Tied to the code end-to-end: family `sig` injects INT/TERM/HUP/QUIT and pairs at every phase with the model as oracle for running units and monitors on receivers' logs, liveness, exit status and wall-clock exit.",
+    note="PARTIAL: that nextest exits as soon as all units have exited is observed, not proved (run-loop termination not modelled); kernel delivery and SIGKILL finality observed. Trusted: Lean kernel; Model/Unit, Model/Dispatcher; extractor; scripted binary; supervisor.",
+    technique="Lean 4 proof (decision logic per phase + regenerated signal tables) + end-to-end correspondence",
+    design="§5 C11"),
+ "C12": dict(
+    text="Lean 4 theorems: for EVERY event sequence in which Stop requests are debounced as the dispatcher debounces them (stop_continue_alternate, proved on the dispatcher model) — interleaved arbitrarily with time, shutdown requests, cancellation, information requests and the process's exit, from a fresh attempt and from a retry delay — no timer is paused while paused or resumed while running (timer_discipline, by the invariant `paused only while stopped`); on Continue every timer the phase owns runs again and SIGCONT is forwarded (all_resumed); while stopped no clock moves and nothing fires, while running they advance by exactly the elapsed time (stopped_time_excluded, running_time_counted; the deadline in running time under arbitrary stop/continue is C09.no_terminate_before_deadline); an information request is answered once with the phase's state and changes nothing (info_once_and_matches); stop/continue change no result field (stop_continue_change_no_result). The proof attempt exposed a third illegal transition in the code (F10), reproduced end-to-end and repaired. Tied to the code end-to-end: family `stop` (TSTP/CONT at every phase, SIGINT while stopped, second shutdown with CONT, USR1), nextest observed stopped/continued by its parent, model as oracle.",
+    note="PARTIAL: trace-erasure form of `results unchanged` observed, not proved; ack timeout, SIGSTOP and select! order are runtime (all orders quantified in the model, sampled end-to-end). Trusted: Lean kernel; Model/Unit, Model/Dispatcher; scripted binary; supervisor.",
+    technique="Lean 4 proof (invariant over all interleavings of the unit state machine) + end-to-end correspondence",
+    design="§5 C12"),
 }
 NOT_YET = "not yet claimed: model/theorems for this property are still being built (see DESIGN.md §5); no other technique is substituted"
 
